@@ -132,6 +132,9 @@ func (t *TopicStats) Add(a *TopicStats) {
 		t.Paused = a.Paused
 	}
 	for _, aChannelStats := range a.Channels {
+		if aChannelStats == nil {
+			continue
+		}
 		found := false
 		for _, channelStats := range t.Channels {
 			if aChannelStats.ChannelName == channelStats.ChannelName {
